@@ -364,6 +364,7 @@ type Lemma struct {
 	Vars    []SVar
 	Steps   []LemmaStep
 	File    string
+	Uses    string // `attr uses label[,label]`: global assumptions brought into this lemma
 }
 
 type LemmaStep struct {
@@ -671,6 +672,15 @@ func (S *Specs) LoadSpecFile(path, pkgPath string) error {
 			cur.Safety = true
 		case "attr":
 			k, v, _ := strings.Cut(rest, " ")
+			if curLemma != nil && cur == nil {
+				if k == "uses" {
+					curLemma.Uses = strings.TrimSpace(v)
+				}
+				break
+			}
+			if cur == nil {
+				return fail(l.n, "attr outside func or lemma")
+			}
 			cur.Attrs[k] = strings.TrimSpace(v)
 		default:
 			return fail(l.n, "unknown keyword %q", kw)
